@@ -26,6 +26,13 @@ def world(d, kind):
         w("dst/f", b"old")
         w("dst/f.~1~", b"older")
         return ["--backup", "numbered", "f", "dst/"], [("f", "dst/f")]
+    if kind == "sparse":
+        # the trailing hole / the whole of an all-hole file exist at the destination only through the sizing call
+        import fsutil
+        fsutil.make_file(os.path.join(d, "tail"), (1 << 20) + 4096, [(0, 8192)], tag=7, sync=True)
+        fsutil.make_file(os.path.join(d, "allhole"), 1 << 20, [], tag=8, sync=True)
+        os.mkdir(os.path.join(d, "dst"))
+        return ["tail", "allhole", "dst/"], [("tail", "dst/tail"), ("allhole", "dst/allhole")]
     if kind == "tree":
         os.makedirs(os.path.join(d, "src", "sub", "deep"))
         os.mkdir(os.path.join(d, "dst"))
@@ -109,7 +116,7 @@ def run(ctx, out):
                 "fired; distinct = (case, driver, call, errno)")
     d0 = ctx.work.fresh("c04")
     mcodes, mobs = [], []
-    for kind in ("file", "overwrite-backup", "tree"):
+    for kind in ("file", "overwrite-backup", "tree", "sparse"):
         for driver in ("parfile", "parblock"):
             d = os.path.join(d0, "%s_%s" % (kind, driver))
 
@@ -140,6 +147,14 @@ def run(ctx, out):
                 errs = [names[i % len(names)]] if quick else names
                 if e["sys"] in ("fsync", "fchmod", "utimensat", "ftruncate", "copy_file_range", "rename", "openat") and quick:
                     errs = sorted(set(errs + ["EIO"]))
+                # the errno each kind of call is most likely to be special-cased for
+                sharp = {"ftruncate": "EPERM", "getdents64": "EACCES", "symlink": "EEXIST", "symlinkat": "EEXIST", "mknodat": "EPERM",
+                         "copy_file_range": "ENOSPC", "rename": "EACCES", "mkdir": "EEXIST", "fsetxattr": "ENOSPC",
+                         "fchown": "EPERM"}.get(e["sys"])
+                if e["sys"] == "openat":
+                    sharp = "EACCES"
+                if sharp:
+                    errs = sorted(set(errs + [sharp]))
                 for en in errs:
                     plans.append([(e, nth, en)])
             if not quick:
